@@ -46,9 +46,10 @@ class Batcher:
             steps.append(dict(op='parse', what=v, pay=k, kind=KINDS[self.rng.randrange(4)]))
         self._emit(tag, steps)
 
-    def prop(self, tag, runs):
-        self._emit(tag, [dict(op='prop', what='none' if to is None else 'dl', to=to or 0, ms=pre, n=tr, kind=kind)
-                         for (to, pre, tr, kind) in runs])
+    def prop(self, tag, runs, junk=None):
+        self._emit(tag, [dict(op='prop', what='none' if to is None else 'dl', to=to or 0, ms=pre, n=tr, kind=kind,
+                              **({'pay': junk[i % len(junk)]} if junk else {}))
+                         for i, (to, pre, tr, kind) in enumerate(runs)])
 
     def _emit(self, tag, steps):
         for i in range(0, len(steps), self.size):
@@ -195,6 +196,13 @@ def generate(tier, rng):
     b.parse('letter case of the key', [digits(rng, rng.randrange(1, 9)) + rng.choice(UNITS) for _ in ks], key_of=lambda i: ks[i])
     # 5. propagation
     b.size = 25 if thorough else 10
-    for name, runs in prop_runs(rng, 1800 if thorough else 40, 4 if thorough else 1).items():
+    allruns = prop_runs(rng, 1800 if thorough else 40, 4 if thorough else 1)
+    for name, runs in allruns.items():
         b.prop('propagation: ' + name, runs)
+    # the same with something malformed under the timeout key in the caller's own metadata (it travels ahead of the
+    # library's header): ignored, the deadline arrives as before
+    JUNK = ['20s', '500ms', '1.5S', '', ' 5S', '5', 'S', '-3S', '123456789m', '1e3m']
+    for name in ('millisecond edges', 'no deadline', 'random', 'eight-digit limit'):
+        runs = allruns[name]
+        b.prop('propagation with malformed timeout metadata: ' + name, runs if thorough else runs[:20], junk=JUNK)
     return b.scens
